@@ -465,7 +465,7 @@ class ScriptSession:
             import datetime as _dt
             import email.utils
             when = (now // 1024 + a["hdr_date"]) * 1024
-            a = dict(a, hdr=email.utils.format_datetime(simloop.EPOCH + _dt.timedelta(seconds=when // 1024), usegmt=True))
+            a = dict(a, hdr=http_date(simloop.EPOCH + _dt.timedelta(seconds=when // 1024), a.get("hdr_date_form", "gmt")))
         self.facts.append(["http", now, a.get("hdr"), a.get("hdr_name", "Retry-After")])
         r = make_resp(a)
         if a["status"] < 400:
@@ -477,6 +477,30 @@ class ScriptSession:
 
     async def close(self) -> None:
         self.closed = True
+
+
+DATE_FORMS = ["gmt", "utc", "naive", "east", "west", "rfc850-ish"]
+
+
+def http_date(when: Any, form: str) -> str:
+    """One instant, several legal / tolerated spellings of an HTTP-date (RFC 7231 7.1.1.1, RFC 5322 3.3):
+    'GMT'; '+0000'; '-0000' (RFC 5322: UTC with no zone information - parsed as a NAIVE datetime); a numeric
+    zone east / west of Greenwich (the same instant, another wall time); no weekday."""
+    import datetime as _dt
+    import email.utils
+    if form == "gmt":
+        return email.utils.format_datetime(when, usegmt=True)
+    if form == "utc":
+        return email.utils.format_datetime(when)                                   # "... +0000"
+    if form == "naive":
+        return email.utils.format_datetime(when.replace(tzinfo=None))              # "... -0000"
+    if form == "east":
+        return email.utils.format_datetime(when.astimezone(_dt.timezone(_dt.timedelta(hours=2))))
+    if form == "west":
+        return email.utils.format_datetime(when.astimezone(_dt.timezone(-_dt.timedelta(hours=5, minutes=30))))
+    if form == "rfc850-ish":
+        return email.utils.format_datetime(when, usegmt=True).split(", ", 1)[1]    # no weekday
+    raise ValueError(form)
 
 
 def outcome_class(e: BaseException | None) -> str:
@@ -531,6 +555,8 @@ def gen_attempt(rng: random.Random, backoff_hint: int | None) -> dict:
         if r2 < 0.10:        # an HTTP-date placed around the backoff, in the past, or right now
             how = "hdr-date"
             a["hdr_date"] = rng.choice([-3, 0, 1, 2, 3, 5, max(0, base - 1), base, base + 1, base + 1])
+            if rng.random() < 0.5:
+                a["hdr_date_form"] = rng.choice(DATE_FORMS[1:])
             if rng.random() < 0.3:
                 a["det"] = rng.choice(RA_POOL)
                 a["payload"] = "status"
@@ -614,8 +640,10 @@ def gen_request(rng: random.Random) -> dict:
         script.append(_garble_body(rng, a))
     case = {"part": "request", "backoffs": bo, "enforce": rng.random() < 0.25, "script": script,
             "pause": rng.choice([0, 1, 7, 1024])}
-    if rng.random() < 0.06:          # through api.get: the body of the final answer is read outside the retry loop
-        case["via"] = "get"
+    if rng.random() < 0.5:           # the retry loop is the same for every method (reads and writes alike)
+        case["method"] = rng.choice(["post", "patch", "patch", "delete", "put", "head"])
+    if rng.random() < 0.08:          # through api.get/post/patch/delete: the body of the final answer is read outside the retry loop
+        case["via"] = rng.choice(["get", "get", "post", "patch", "delete"])
         case["script"] = [a if (a["kind"] == "http" and a["status"] != 401) or
                           (a["kind"] == "exc" and a["exc"] in EXCS[:1] + EXCS[3:6] + ["ClientOSError"])
                           else {"kind": "http", "lat": a["lat"], "status": 500, "payload": "empty"} for a in script]
@@ -638,14 +666,20 @@ async def _one_request(env: dict, case: dict) -> dict:
     t0 = tk(loop.time())
     exc: BaseException | None = None
     try:
-        if case.get("via") == "get":
-            # api.get → request() under the REAL `authenticated`, then `response.json()` outside the loop
+        if case.get("via"):
+            # api.get/post/patch/delete → request() under the REAL `authenticated`, then `response.json()` outside the loop
             sess.body_exc = case.get("body_exc")
             vault = credentials.Vault({"k": credentials.AiohttpSession(server="http://fake", aiohttp_session=sess)})
             auth.vault_var.set(vault)
-            await api.get("/apis/x", settings=settings, logger=env["logger"])
+            kw = {} if case["via"] == "get" else {"payload": {"metadata": {"labels": {"x": "y"}}}}
+            # (the vault has one credential and no authenticator behind it: a request that asks for a
+            # re-authentication would wait for ever - bounded, and reported as what it is)
+            await asyncio.wait_for(getattr(api, case["via"])("/apis/x", settings=settings, logger=env["logger"], **kw), timeout=86400.0)
         else:
-            await api.request("get", "/apis/x", settings=settings, logger=env["logger"], context=ctxt)
+            method = case.get("method", "get")
+            kw = {} if method in ("get", "head", "delete") else {"payload": {"metadata": {"labels": {"x": "y"}}},
+                                                                 "headers": {"Content-Type": "application/merge-patch+json"}}
+            await api.request(method, "/apis/x", settings=settings, logger=env["logger"], context=ctxt, **kw)
     except Exception as e:       # noqa: BLE001 — every escalation is an observation
         exc = e
     fin = tk(loop.time())
@@ -705,7 +739,7 @@ def request_to_lean(case: dict, obs: dict) -> list:
             f = ["http", a["status"], attempt_hdr(a, fact), a.get("payload", "empty"), d, bad]
         script.append({"lat": a["lat"], "f": f})
     cfg = {"backoffs": seq_to_lean(case["backoffs"]), "enforce": case["enforce"]}
-    if case.get("via") == "get":
+    if case.get("via"):
         return ["C12.getjson", cfg, script, obs["t0"], case.get("body_exc") is not None]
     return ["C12.request", cfg, script, obs["t0"]]
 
@@ -1201,8 +1235,8 @@ def gen_vault(rng: random.Random) -> dict:
         per_key = []
         for _k in range(nkeys):
             r = rng.random()
-            what = "fresh" if r < 0.58 else "same" if r < 0.74 else "old" if r < 0.82 else "none" if r < 0.9 \
-                else "same-prio" if r < 0.95 else "other-key"
+            what = "fresh" if r < 0.54 else "same" if r < 0.68 else "old" if r < 0.74 else "none" if r < 0.82 \
+                else "same-prio" if r < 0.87 else "other-key" if r < 0.92 else rng.choice(["back2", "back3", "back3", "back4"])
             per_key.append({"what": what, "life": life(), "delay": rng.choice([0, 16, 64, 512, 1024])})
         logins.append(per_key)
     reqs = []
@@ -1212,7 +1246,7 @@ def gen_vault(rng: random.Random) -> dict:
         calls = []
         for _c in range(rng.choice([1, 1, 2, 3])):
             calls.append({"gap": rng.choice([0, 0, 1, 16, 500, 1024]),
-                          "answers": [[rng.choice([0, 16, 16, 64, 300]), rng.choice([200, 200, 200, 200, 500, 404, 503])]
+                          "answers": [[rng.choice([0, 16, 16, 64, 300]), rng.choice([200, 200, 200, 200, 200, 500, 404, 503, 403, 429])]
                                       for _a in range(rng.choice([0, 1, 2, 4]))]})
         start = rng.choice([0, 0, 1, 16, 64, 990, 1000, 1024, 1030])
         if storm:
@@ -1387,6 +1421,9 @@ async def _one_vault(env: dict, case: dict) -> dict:
                 return mk(ki, hist[-1], None)
             if spec["what"] == "old" and hist:
                 return mk(ki, hist[0], None)
+            if spec["what"] in ("back2", "back3", "back4") and len(hist) >= int(spec["what"][4:]):
+                # the credential handed out k logins ago: at / just beyond the edge of what the vault remembers
+                return mk(ki, hist[-int(spec["what"][4:])], None)
             if spec["what"] == "same-prio" and hist:      # the same credential value with another priority
                 return mk(ki, hist[-1], None, prio=case["keys"][ki]["prio"] + 1)
             if spec["what"] == "other-key":               # the credential another login key has handed out
@@ -1519,9 +1556,19 @@ def oracle_vault(case: dict, obs: dict) -> list[tuple[str, dict]]:
     removed_tokens: dict[int, list[tuple[int, int]]] = collections.defaultdict(list)   # key → (token, priority) removed by invalidation, in order
     episodes = 0
     populated_since_flip = True
+    got_401: dict[int, bool] = {}                   # requester → its current attempt series ended in a 401 / closed session
+    removed_at: list[tuple[int, int]] = []          # (token, seq of the invalidation that removed it)
     for l in labels:
         lab, snap = l["label"], l["snap"]
         kind = lab[0]
+        if kind in ("acquire", "start"):
+            got_401[lab[1]] = False
+        if kind == "unauth":
+            got_401[lab[1]] = True
+        if kind == "inval" and not got_401.get(lab[1]):
+            # 'a 401 triggers a single re-authentication': nothing else (a 403, a 5xx, a network error) may discard credentials
+            out.append(("credentials were reported as invalid by a request that was not answered with a 401",
+                        {"site": "auth.authenticated", "shape": "invalidation-without-401"}))
         if kind == "unknown-segment":
             out.append((f"an unexpected lock segment in {lab[1]}", {"site": "vault", "shape": "unknown-segment"}))
         if kind == "acquire":
@@ -1560,6 +1607,7 @@ def oracle_vault(case: dict, obs: dict) -> list[tuple[str, dict]]:
                     out.append(("a 401 on an already replaced credential removed a different (fresh) credential",
                                 {"site": "Vault.invalidate", "shape": "stale-401-removed-fresh"}))
                 removed_tokens[k].append((before[k][2], before[k][3]))
+                removed_at.append((before[k][2], l["seq"]))
             if prev["ready"] and not snap["ready"] and not gone and prev["cur"]:
                 out.append(("a 401 on an already replaced credential triggered a re-authentication",
                             {"site": "Vault.invalidate", "shape": "stale-401-reauth"}))
@@ -1601,6 +1649,12 @@ def oracle_vault(case: dict, obs: dict) -> list[tuple[str, dict]]:
             s = last_sel.get(e["who"])
             if s is None or s["token"] != e["token"]:
                 out.append(("an attempt carried a credential other than the one selected for it", {"site": "auth.authenticated", "shape": "wrong-credential"}))
+            elif any(tok_ == e["token"] and s["seq"] < at < e["seq"] for tok_, at in removed_at):
+                # 'invalidated credentials are not reused': a request that holds a credential from before its
+                # invalidation (sleeping in a back-off meanwhile) must not send it again - it has to come back for a fresh one
+                out.append((f"{e['who']} sent token {e['token']} again after that credential had been invalidated "
+                            f"(selected before the invalidation, used after it)",
+                            {"site": "Vault.invalidate/APIContext", "shape": "stale-credential-sent-after-invalidation"}))
     return out
 
 
@@ -1762,9 +1816,239 @@ def key_contain(case: dict, obs: dict) -> tuple[str, bool]:
 
 
 # =============================================================================================
+# part S — the whole operator: the REAL kopf.operator() against the fake API server (harness.sim), scripted
+# faults on the operator's own PATCH requests of some objects. Nothing inside kopf is wrapped: the retries
+# (api.patch under the real @authenticated), their escalation into process_resource_event, the per-object
+# pause of the real throttler in the real worker, the other objects' handling and the operator's survival are
+# judged from the fake server's request log and the handler invocations only (oracle only).
+# =============================================================================================
+SIM_RUNNER = "harness.props.sim_c12:run_contained"
+SIM_EPS = 8 / 64            # seconds: a few API latencies (1/64 s each) between an event and the reaction to it
+SIM_END = 400.0
+SIM_B = [0, 0.25, 0.5, 1, 2]
+SIM_D = [2, 4, 8, 16]
+SIM_TRANSIENT = [500, 502, 503, 504, 429, 429, 403]
+SIM_FATAL = [400, 405, 409, 410, 415]
+
+
+def _gen_sim_fault(rng: random.Random, transient: bool) -> list:
+    if not transient:
+        return ["status", rng.choice(SIM_FATAL)]
+    r = rng.random()
+    if r < 0.15:
+        return ["conn-before"]
+    if r < 0.22:
+        return ["timeout"]
+    st = rng.choice(SIM_TRANSIENT)
+    if rng.random() < (0.6 if st == 429 else 0.25):
+        ra = rng.choice([0, 1, 2, 3, 5, 1.5, 0.25])
+        if rng.random() < 0.7:
+            return ["status", st, {rng.choice(["Retry-After", "Retry-After", "retry-after"]): str(ra)}]
+        return ["status", st, {}, {"retryAfterSeconds": ra}]
+    return ["status", st]
+
+
+def gen_sim(rng: random.Random) -> dict:
+    nb = rng.choice([0, 1, 2, 2, 3])
+    backoffs: Any = [rng.choice(SIM_B) for _ in range(nb)]
+    if nb == 1 and rng.random() < 0.4:
+        backoffs = backoffs[0]                       # a scalar error_backoffs
+    r = rng.random()
+    delays: Any = [rng.choice(SIM_D) for _ in range(rng.choice([1, 2, 3]))] if r < 0.75 else \
+        rng.choice(SIM_D) if r < 0.9 else []
+    nobj = rng.choice([2, 2, 3])
+    nfaulty = 1 if nobj == 2 else rng.choice([1, 2])
+    names = [f"o{i}" for i in range(nobj)]
+    faults: dict[str, list] = {}
+    timeline: list[list] = []
+    serial = [0]
+
+    def edit(t: float, name: str) -> None:
+        serial[0] += 1
+        timeline.append([t, "edit", name, {"spec": {"x": serial[0]}}])
+
+    for name in names[:nfaulty]:
+        script: list = []
+        for _ in range(rng.choice([1, 1, 2, 3, 4])):
+            how = rng.choice(["exhaust", "exhaust", "fatal", "recover"])
+            if how == "exhaust":
+                script += [_gen_sim_fault(rng, True) for _ in range(nb + 1)]
+            else:
+                script += [_gen_sim_fault(rng, True) for _ in range(rng.randint(0, nb))]
+                script.append(_gen_sim_fault(rng, False) if how == "fatal" else None)
+        faults[name] = script
+        for _ in range(rng.choice([2, 3, 4, 6])):
+            edit(rng.randrange(2, 320) / 4, name)              # 0.5 … 80 s: into the passes and the pauses
+        edit(300.0, name)                                      # long after the last scripted fault
+    for name in names[nfaulty:]:
+        for _ in range(rng.choice([1, 2, 3])):
+            edit(rng.randrange(2, 480) / 4, name)
+    sc = {"seed": rng.randrange(1 << 30), "runner": SIM_RUNNER,
+          "settings": {"queueing.error_delays": delays, "networking.error_backoffs": backoffs,
+                       "networking.enforce_retry_after": rng.random() < 0.25, "networking.request_timeout": 4.0},
+          "handlers": [{"kind": "create", "id": "c1", "script": []}, {"kind": "update", "id": "u1", "script": []}],
+          "objects": [{"name": n} for n in names], "timeline": sorted(timeline, key=lambda e: e[0]),
+          "patch_faults": faults, "end": SIM_END}
+    return {"part": "sim", "sc": sc}
+
+
+def run_sims(cases: list[dict], wall: float = 40.0) -> list[dict]:
+    """Every scenario in a subprocess worker (stall-safe); one observation per case."""
+    from harness.sim import pool
+    if not cases:
+        return []
+    res = pool.run_many([dict(c["sc"], runner=SIM_RUNNER) for c in cases], wall=wall, batch=4 if len(cases) <= 200 else 16)
+    out = []
+    for r in res:
+        if "trace" in r:
+            out.append(r["trace"])
+        elif r.get("stall"):
+            out.append({"sim_error": "stall: the simulation spun without suspending", "stderr": (r.get("stderr") or "")[-1500:]})
+        else:
+            raise RuntimeError(f"whole-operator run failed in the harness: {r.get('harness_error')}: {r.get('tb', '')[-1500:]}")
+    return out
+
+
+def _sim_requested(spec: list | None) -> float | None:
+    """what the server asked for in this answer (seconds), from the injected fault itself"""
+    if not spec or spec[0] != "status":
+        return None
+    for k, v in (spec[2] if len(spec) > 2 and isinstance(spec[2], dict) else {}).items():
+        if k.lower() == "retry-after":
+            return float(v)
+    det = spec[3] if len(spec) > 3 and isinstance(spec[3], dict) else {}
+    return float(det["retryAfterSeconds"]) if det.get("retryAfterSeconds") else None
+
+
+def _sim_class(p: dict) -> str:
+    """the property's reading of one answer: ok | transient | fatal | special (not judged)"""
+    r = p["resp"]
+    if r in ("conn-error", "timeout"):
+        return "transient"
+    if not isinstance(r, int):
+        return "special"
+    if r < 400:
+        return "ok"
+    if r in (403, 429) or 500 <= r < 600:
+        return "transient"
+    if r in (401, 404, 422) or r >= 600:
+        return "special"          # re-authentication / 'the object is gone' / conflicts: other mechanisms
+    return "fatal"
+
+
+def oracle_sim(case: dict, obs: dict) -> list[tuple[str, dict]]:
+    """From the property text over the fake server's request log and the handler invocations."""
+    out: list[tuple[str, dict]] = []
+    sc = case["sc"]
+    if obs.get("sim_error"):
+        out.append((f"the operator's run did not complete: {obs['sim_error']}", {"site": "operator", "shape": "stalled"}))
+        return out
+    st = sc["settings"]
+    B = st["networking.error_backoffs"]
+    B = list(B) if isinstance(B, list) else [B]
+    D = st["queueing.error_delays"]
+    D = list(D) if isinstance(D, list) else [D]
+    enforce = st["networking.enforce_retry_after"]
+    end = float(sc["end"])
+    final = [m for m in obs["marks"] if m["what"] == "stopped" and m.get("final")]
+    if obs.get("died") or not final or final[0].get("result") != "None":
+        out.append((f"the operator did not survive the faults: {obs.get('died') or (final[0].get('result') if final else 'not running at the end')}",
+                    {"site": "operator", "shape": "operator-stopped"}))
+        return out
+    faulty = set(sc.get("patch_faults") or {})
+    for o in sc["objects"]:
+        name = o["name"]
+        P = obs["patches"].get(name, [])
+        edits = sorted(e[0] for e in sc["timeline"] if e[1] == "edit" and e[2] == name)
+        acts = sorted([c[1] for c in obs["calls"] if c[0] == name] + [p["t"] for p in P])
+
+        def reacted(t0: float, what: str, shape: str) -> None:
+            """something of this object (a handler, a request) must run within SIM_EPS of t0"""
+            if t0 + SIM_EPS >= end:
+                return
+            hit = next((a for a in acts if a >= t0), None)
+            if hit is None or hit - t0 > SIM_EPS:
+                late = "never" if hit is None else f"{hit - t0:g} s late"
+                out.append((f"{name}: {what} at {t0:g}: handled {late}", {"site": "operator", "shape": shape}))
+
+        if name not in faulty:
+            # 'does not delay other objects': a healthy object is handled when its events arrive
+            reacted(0.0, "listed", "healthy-object-delayed")
+            for te in edits:
+                reacted(te, "changed", "healthy-object-delayed")
+            bad = [p for p in P if _sim_class(p) != "ok"]
+            if bad:
+                out.append((f"{name}: a request of a healthy object failed: {bad[0]['resp']}", {"site": "harness", "shape": "fault-leak"}))
+            continue
+        i, k = 0, 0
+        while i < len(P) and len(out) < 6:
+            j, idx, ending = i, 0, None
+            while ending is None:
+                p = P[j]
+                cls = _sim_class(p)
+                if cls in ("ok", "fatal", "special"):
+                    ending = cls
+                elif idx >= len(B):
+                    ending = "exhausted"
+                else:
+                    b, ra = B[idx], _sim_requested(p["spec"])
+                    due = max(b, ra or 0.0) if not (enforce and ra is not None) else ra
+                    nxt = P[j + 1] if j + 1 < len(P) else None
+                    if nxt is None or nxt["t"] - p["t_end"] > due + 1.0 + SIM_EPS:
+                        if p["t_end"] + due + 1.0 + SIM_EPS < end:
+                            gap = "never" if nxt is None else f"after {nxt['t'] - p['t_end']:g} s"
+                            out.append((f"{name}: a transient failure ({p['resp']}) of attempt #{idx + 1} was retried {gap}; "
+                                        f"backoff {b:g} s, {len(B) - idx} retries left", {"site": "operator", "shape": "transient-not-retried"}))
+                        ending = "abandoned"
+                        break
+                    gap = nxt["t"] - p["t_end"]
+                    if gap < b and not (enforce and ra is not None):
+                        out.append((f"{name}: waited {gap:g} s before retry #{idx + 1}, configured backoff {b:g} s",
+                                    {"site": "operator", "shape": "gap<backoff"}))
+                    if ra is not None and gap < ra:
+                        out.append((f"{name}: waited {gap:g} s after an HTTP {p['resp']} asking for {ra:g} s",
+                                    {"site": "operator", "shape": "gap<retry-after"}))
+                    j, idx = j + 1, idx + 1
+            p = P[j]
+            if ending == "special":
+                break
+            if ending == "ok":
+                k = 0
+            elif ending in ("fatal", "exhausted"):
+                # 'an escalated error pauses that object for the configured error delays (growing per consecutive error)'
+                T = p["t_end"]
+                pause = D[min(k, len(D) - 1)] if D else None
+                k += 1
+                deadline = T + (pause or 0.0)
+                later = [a for a in acts if a >= T and a > p["t"]]
+                if pause and later and later[0] < deadline:
+                    out.append((f"{name}: escalated at {T:g} (consecutive error #{k}), the configured pause is {pause:g} s, "
+                                f"but the object was processed again at {later[0]:g}", {"site": "operator", "shape": "pause-not-served"}))
+                # 'processing recovers once errors stop': an event that came meanwhile is handled when the pause ends,
+                # a later one when it comes
+                pending = [te for te in edits if P[i]["t"] < te <= deadline]
+                if pending:
+                    reacted(deadline, f"changed at {pending[-1]:g} during the pause that ended", "no-recovery-after-pause")
+                else:
+                    te = next((te for te in edits if te > deadline), None)
+                    if te is not None:
+                        reacted(te, "changed after the pause, ", "no-recovery-after-pause")
+            i = j + 1
+    return out
+
+
+def key_sim(case: dict, obs: dict) -> tuple[str, bool]:
+    sc = case["sc"]
+    kinds = {n: [_sim_class(p)[0] + str(p["resp"])[:3] for p in obs.get("patches", {}).get(n, [])] for n in sorted(sc.get("patch_faults") or {})}
+    st = sc["settings"]
+    return json.dumps([kinds, st["networking.error_backoffs"], st["queueing.error_delays"], st["networking.enforce_retry_after"]]), \
+        any(_sim_class(p) != "ok" for ps in obs.get("patches", {}).values() for p in ps)
+
+
+# =============================================================================================
 # running cases (in-process or in a pool of shard workers)
 # =============================================================================================
-GEN = {"request": gen_request, "throttle": gen_throttle, "vault": gen_vault, "contain": gen_contain}
+GEN = {"request": gen_request, "throttle": gen_throttle, "vault": gen_vault, "contain": gen_contain, "sim": gen_sim}
 
 
 def _env() -> dict:
@@ -1782,6 +2066,12 @@ def _env() -> dict:
 
 def run_cases(cases: list[dict], wall_limit: float = 900.0) -> list[dict]:
     """Run the cases on the real code under virtual time; returns one observation per case."""
+    if any(c["part"] == "sim" for c in cases):      # whole-operator runs: each on its own loop, in subprocesses
+        sims = iter(run_sims([c for c in cases if c["part"] == "sim"]))
+        rest = iter(run_cases([c for c in cases if c["part"] != "sim"], wall_limit))
+        return [next(sims) if c["part"] == "sim" else next(rest) for c in cases]
+    if not cases:
+        return []
     env = _env()
     simloop = env["simloop"]
     out: list[dict] = []
@@ -1813,6 +2103,8 @@ def judge(case: dict, obs: dict) -> list[tuple[str, dict]]:
         return fails
     if case["part"] == "contain":
         return oracle_contain(case, obs)
+    if case["part"] == "sim":
+        return oracle_sim(case, obs)
     return oracle_vault(case, obs)
 
 
@@ -1835,7 +2127,7 @@ def lean_requests(case: dict, obs: dict) -> list[list]:
             reqs.append(["C12.product", seq_to_lean(case["delays"]),
                          [{"obj": k, "at": t, "in": c} for t, k, c, _ in product_events(case, obs)]])
         return reqs
-    if case["part"] == "contain":
+    if case["part"] in ("contain", "sim"):
         return []                       # oracle only
     return [vault_to_lean(case, obs)]
 
@@ -1864,7 +2156,7 @@ def tie_compare(case: dict, obs: dict, answers: list[Any]) -> list[tuple[str, An
                 res.append(("product run of all objects on one clock", [[e[1] for e in evs], a], [[x[0] for x in m], b]))
             else:
                 res.append(("product run of all objects on one clock", "ok", m))
-    elif case["part"] == "contain":
+    elif case["part"] in ("contain", "sim"):
         pass
     else:
         m = models[0]
@@ -1883,6 +2175,8 @@ def case_key(case: dict, obs: dict) -> tuple[str, bool]:
         return json.dumps([k for k, _ in keys]), any(nt for _, nt in keys)
     if case["part"] == "contain":
         return key_contain(case, obs)
+    if case["part"] == "sim":
+        return key_sim(case, obs)
     return key_vault(case, obs)
 
 
@@ -1907,8 +2201,12 @@ def histogram(case: dict, obs: dict, hist: dict) -> None:
                 c("request.retry_after", kind + ("+details" if a.get("det") else ""))
             if a["kind"] == "http" and a["status"] >= 400:
                 c("request.body", a.get("payload", "empty") + ("+unusable-details" if det_class(a.get("det"))[1] else ""))
-        if case.get("via") == "get":
+        c("request.method", case.get("method", "get") if not case.get("via") else "api." + case["via"])
+        if case.get("via"):
             c("request.via_get", "body-read-fails" if case.get("body_exc") else "body-ok")
+        for a in case["script"][:len(obs["times"])]:
+            if a.get("hdr_date") is not None:
+                c("request.http_date_form", a.get("hdr_date_form", "gmt"))
     elif case["part"] == "throttle":
         c("throttle.delays", case["delays"]["kind"])
         c("throttle.objects", len(case["objects"]))
@@ -1920,6 +2218,18 @@ def histogram(case: dict, obs: dict, hist: dict) -> None:
                 c("throttle.escaped", r["escaped"])
                 c("throttle.activated", r["activated"])
                 c("throttle.interrupted", r["st"]["until"] is not None)
+    elif case["part"] == "sim":
+        st = case["sc"]["settings"]
+        c("sim.objects", f"{len(case['sc']['objects'])} ({len(case['sc'].get('patch_faults') or {})} faulty)")
+        c("sim.error_backoffs", "scalar" if not isinstance(st["networking.error_backoffs"], list) else len(st["networking.error_backoffs"]))
+        c("sim.error_delays", "scalar" if not isinstance(st["queueing.error_delays"], list) else len(st["queueing.error_delays"]))
+        c("sim.enforce_retry_after", st["networking.enforce_retry_after"])
+        for ps in obs.get("patches", {}).values():
+            for p_ in ps:
+                c("sim.patch_answer", p_["resp"])
+                if _sim_requested(p_["spec"]) is not None:
+                    c("sim.retry_after", "header" if len(p_["spec"]) > 2 and p_["spec"][2] else "details")
+        c("sim.outcome", "stalled" if obs.get("sim_error") else "died" if obs.get("died") else "alive")
     elif case["part"] == "contain":
         c("contain.objects", "/".join(sorted(o["kind"] for o in case["objects"])))
         c("contain.delays", case["delays"]["kind"])
@@ -2026,7 +2336,7 @@ def _brief(case: dict, obs: dict) -> Any:
         return {k: obs[k] for k in ("t0", "times", "outcome", "fin", "exc", "status")}
     if case["part"] == "throttle":
         return [o["outs"] for o in obs["objects"]]
-    if case["part"] == "contain":
+    if case["part"] in ("contain", "sim"):
         return obs
     return {"labels": [[l["label"], l["effect"], l["t"]] for l in obs["labels"]][:200], "results": obs["results"],
             "stuck": obs["stuck"]}
@@ -2097,6 +2407,9 @@ def run(ctx: Ctx) -> None:
     shards = workers * (4 if ctx.tier == "thorough" else 1)
     for res in _pool_map(_plan(ctx, total, shards), workers):
         _absorb(ctx, res)
+    # part S: whole-operator runs (their own subprocess workers, see run_sims)
+    srng = random.Random(f"C12-sim-{ctx.seed}-{ctx.rng.random()}")
+    _absorb(ctx, evaluate([gen_sim(srng) for _ in range(ctx.budget(40, 1500))], with_lean=False), oracle_only=True)
     # the finite table of check_response, exhaustively: every status 100..1000 through the real code
     _status_table(ctx)
 
@@ -2134,6 +2447,21 @@ def _status_table(ctx: Ctx) -> None:
     ctx.count("status_table", "statuses", len(got))
 
 
+def _new_failures(res: dict) -> list:
+    """oracle failures of a result that are not the recorded open findings (those never end a search)"""
+    from ..core import FINDINGS
+    known = []
+    try:
+        for line in FINDINGS.read_text().splitlines():
+            if line.strip():
+                k = json.loads(line)
+                if k.get("property") == ID and k.get("status") == "open":
+                    known.append(k.get("signature"))
+    except OSError:
+        pass
+    return [f for f in res["oracle"] if f["signature"] not in known]
+
+
 def search(ctx: Ctx, broken: list) -> None:
     """A proof/tie is broken and the oracle saw nothing: 10x budget, oracle only; cases near the
     first disagreeing input first."""
@@ -2146,15 +2474,17 @@ def search(ctx: Ctx, broken: list) -> None:
     if near:
         res = evaluate(near[:50], with_lean=False)
         _absorb(ctx, res, oracle_only=True)
-        if res["oracle"]:
+        if _new_failures(res):
             return
     total = ctx.budget(2000, 100_000) * (10 if ctx.tier == "quick" else 2)
     workers = min(16, os.cpu_count() or 1)
     jobs = [(j[0] + "-search", j[1], False) for j in _plan(ctx, total, workers * 4)]
     for res in _pool_map(jobs, workers):
         _absorb(ctx, res, oracle_only=True)
-        if res["oracle"]:
+        if _new_failures(res):
             return
+    srng = random.Random(f"C12-sim-search-{ctx.seed}-{ctx.rng.random()}")
+    _absorb(ctx, evaluate([gen_sim(srng) for _ in range(ctx.budget(160, 3000))], with_lean=False), oracle_only=True)
 
 
 def replay(ctx: Ctx, data: dict) -> None:
